@@ -123,7 +123,7 @@ func modeUfsIO(tier string, args []string) {
 	defer cleanupScratch()
 	ncases := 160
 	if tier == "thorough" {
-		ncases = 6000
+		ncases = 1500
 	}
 	root := scratch()
 	for c := 0; c < ncases; c++ {
@@ -180,6 +180,7 @@ func modeUfsIO(tier string, args []string) {
 		var sb strings.Builder
 		nops := 6 + rng.Intn(10)
 		cur := append([]byte{}, content...)
+		seqOff := uint64(0) // where File.Read / File.Write must be, by the helpers' contract
 		pickOff := func() uint64 {
 			switch rng.Intn(6) {
 			case 0:
@@ -238,12 +239,15 @@ func modeUfsIO(tier string, args []string) {
 				n := pickCnt()
 				buf := make([]byte, n)
 				got, err := f.Read(buf)
+				disk, _ := os.ReadFile(path)
+				want := clip(disk, seqOff, uint64(min(n, int(iounit))))
 				if err == io.EOF {
-					fmt.Fprintf(&sb, " S %d => EOF V 1", n)
+					fmt.Fprintf(&sb, " S %d => EOF V %d", n, b2i(len(want) == 0))
 				} else if err != nil {
 					fmt.Fprintf(&sb, " S %d => ERR V 0", n)
 				} else {
-					fmt.Fprintf(&sb, " S %d => D %s V 1", n, hx(buf[:got]))
+					fmt.Fprintf(&sb, " S %d => D %s V %d", n, hx(buf[:got]), b2i(bytes.Equal(buf[:got], want)))
+					seqOff += uint64(got)
 				}
 			case 3: // Clnt.Write
 				off := pickOff()
@@ -276,18 +280,44 @@ func modeUfsIO(tier string, args []string) {
 				if err != nil {
 					fmt.Fprintf(&sb, " Q %s => ERR V 0", hx(data))
 				} else {
-					fmt.Fprintf(&sb, " Q %s => C %d V 1", hx(data), n)
+					want := posixWrite(cur, seqOff, data[:min(n, len(data))])
+					fmt.Fprintf(&sb, " Q %s => C %d V %d", hx(data), n, b2i(bytes.Equal(disk, want) && n == min(len(data), int(iounit))))
+					seqOff += uint64(n)
 					cur = disk
 				}
 			}
+		}
+		// read the whole file chunk by chunk KEEPING the slices Clnt.Read returns, join them afterwards
+		keepOK := true
+		{
+			var kept [][]byte
+			off := uint64(0)
+			for {
+				d, err := s.clnt.Read(f.Fid, off, iounit)
+				if err != nil || len(d) == 0 {
+					break
+				}
+				kept = append(kept, d)
+				off += uint64(len(d))
+			}
+			// more traffic on the connection before the slices are looked at
+			for i := 0; i < 10; i++ {
+				_, _ = s.clnt.Read(f2.Fid, 0, 16)
+			}
+			disk, _ := os.ReadFile(path)
+			var joined []byte
+			for _, k := range kept {
+				joined = append(joined, k...)
+			}
+			keepOK = bytes.Equal(joined, disk)
 		}
 		final, _ := os.ReadFile(path)
 		oth, _ := os.ReadFile(other)
 		_ = f.Close()
 		_ = f2.Close()
 		s.close()
-		emit("IO %d %d %d %s %d%s ; FINAL %s V %d", msize, b2i(dotu), iounit, hx(content), nops, sb.String(), hx(final),
-			b2i(string(oth) == "other file, must not change"))
+		emit("IO %d %d %d %s %d%s ; FINAL %s V %d KEEP %d", msize, b2i(dotu), iounit, hx(content), nops, sb.String(), hx(final),
+			b2i(string(oth) == "other file, must not change"), b2i(keepOK))
 		_ = os.Remove(path)
 		_ = os.Remove(other)
 		stat("ufsio.cases", 1)
